@@ -403,7 +403,11 @@ impl Task {
             )));
         }
         self.init(ctx)?;
+        #[cfg(feature = "verif")]
+        crate::verif::pause("exec.init");
         self.run(ctx)?;
+        #[cfg(feature = "verif")]
+        crate::verif::pause("exec.run");
         self.next(ctx)?;
         Ok(())
     }
@@ -439,10 +443,14 @@ impl Task {
                 ctx.dispatch_act(&act, false)?;
             }
             EventAction::Remove => {
+                #[cfg(feature = "verif")]
+                crate::verif::pause("update.guard");
                 self.set_state(TaskState::Removed);
                 self.next(ctx)?;
             }
             EventAction::Submit => {
+                #[cfg(feature = "verif")]
+                crate::verif::pause("update.guard");
                 self.set_state(TaskState::Submitted);
                 self.next(ctx)?;
             }
@@ -453,6 +461,8 @@ impl Task {
                         self.pid, self.id
                     )));
                 }
+                #[cfg(feature = "verif")]
+                crate::verif::pause("update.guard");
                 self.set_state(TaskState::Completed);
                 self.next(ctx)?;
             }
@@ -463,6 +473,8 @@ impl Task {
                         self.pid, self.id
                     )));
                 }
+                #[cfg(feature = "verif")]
+                crate::verif::pause("update.guard");
                 let nid = ctx
                     .get_var::<String>(consts::ACT_SUBFLOW_TO)
                     .ok_or(ActError::Action(
@@ -536,6 +548,8 @@ impl Task {
                         self.pid, self.id
                     )));
                 }
+                #[cfg(feature = "verif")]
+                crate::verif::pause("update.guard");
                 ctx.abort_task(&ctx.task())?;
             }
             EventAction::Skip => {
@@ -545,6 +559,8 @@ impl Task {
                         self.pid, self.id
                     )));
                 }
+                #[cfg(feature = "verif")]
+                crate::verif::pause("update.guard");
 
                 for task in self.siblings() {
                     if task.state().is_completed() {
@@ -579,6 +595,8 @@ impl Task {
                         task.pid, task.id
                     )));
                 }
+                #[cfg(feature = "verif")]
+                crate::verif::pause("update.guard");
                 let parent = task.parent().ok_or(ActError::Action(format!(
                     "cannot find task parent by tid '{}'",
                     task.id
